@@ -51,4 +51,11 @@ def slice (file : Bytes) (first last : Nat) : Bytes := (file.drop first).take (l
 def fullResp (file : Bytes) (isHead : Bool) : Resp :=
   ⟨200, none, file.length, if isHead then [] else file⟩
 
+/-- what `FileDownloader.render` needs from `filenode.read(consumer, offset, size)`: the whole file for
+`(0, None)`, and `file[offset : offset+size]` for a non-empty range inside the file.  For literal nodes this is
+C04 `read_slice_literal`, for immutable (CHK) nodes C04 `read_slice` (upload → read pipeline), for mutable
+(SDMF / MDMF) nodes C09 `read_range_slice` / `read_to_end`. -/
+def SliceReader (file : Bytes) (rd : Nat → Option Nat → Bytes) : Prop :=
+  rd 0 none = file ∧ ∀ first n, 0 < n → first + n ≤ file.length → rd first (some n) = (file.drop first).take n
+
 end Tahoe.Web
